@@ -955,6 +955,7 @@ with next_g (fuel : nat) (it : iter) (sc : frames) {struct fuel} : M (option (fr
                                                          | (e, d) :: kr =>
                                                              do v <- (fun w => match eval_g fuel' e s w with
                                                                                | (Ok v, w') => (Ok v, w')
+                                                                               | (OutOfFuel, w') => (OutOfFuel, w')
                                                                                | (o, w') => if first then (o, w') else (OutOfDomain, w')
                                                                                end);
                                                              do vs <- gk false kr; ret ((v, d) :: vs)
